@@ -1,6 +1,7 @@
 #!/bin/sh
 # @Interpolation Linear using 1 is ignored: a.txt is y=t on t=0,1,2; b.txt is y=t/2 on t=0,2,4.  Interpolated on the abscissa the
-# two curves differ by 1 at t=2, yet tfel-check compares row by row "with interpolation none" and reports SUCCESS (exit 0).
+# two curves differ by 1 at t=2.  Before 1ecb7d187 tfel-check compared row by row "with interpolation none" and reported SUCCESS (exit 0,
+# observed.checklog); after it: "with interpolation linear using column 1 failed", exit 1.
 D=$(mktemp -d); cp "$(dirname "$0")"/a.txt "$(dirname "$0")"/b.txt "$(dirname "$0")"/t.check $D; cd $D
 LD_LIBRARY_PATH=$(find /repo/_build -name "*.so" -printf '%h\n' | sort -u | tr '\n' ':') /verif/tools/safe.sh 60 /repo/_build/tfel-check/src/tfel-check t.check
 echo "exit=$?"; grep -n "interpolation" t.checklog; cd /; rm -r $D
